@@ -138,7 +138,7 @@ func genC10(seed uint64, tier string) Scenario {
 	if !s.Shutdown && g.Pct(50) {
 		s.Service.TimeoutNs = int64(1+g.IntN(1000)) * 1e6
 	}
-	nClients := 1 + g.IntN(3)
+	nClients := 1 + g.IntN(3*deeper(tier))
 	cid := 0
 	sizeClass := func() int {
 		if g.Pct(90) {
